@@ -114,6 +114,16 @@ impl RoutingTable {
 
     /// Convenience function to add what's usually the response payload.
     pub fn add_nodes(&mut self, node: Node, questionable_nodes: &[NodeHandle]) {
+        #[cfg(btdht_verif)]
+        crate::verif_log::record(format!(
+            "T_ADDNODES {:?} [{}]",
+            node.handle(),
+            questionable_nodes
+                .iter()
+                .map(|h| format!("{h:?}"))
+                .collect::<Vec<_>>()
+                .join(",")
+        ));
         self.add_node(node);
 
         // Add the payload nodes as questionable
